@@ -186,6 +186,20 @@ func (c *EvalCtx) evalIdent(name string) Val {
 		return IntV{t}
 	}
 	if v, ok := c.binds[name]; ok {
+		if c.fr != nil && c.lazyFn == nil {
+			for i, p := range c.fr.fn.Params {
+				if p.Name() == name {
+					c.fe.eng.noteParamUse(c.fr.name, name, i, 0)
+				}
+			}
+			if rs := c.fr.fn.Signature.Results(); rs != nil {
+				for i := 0; i < rs.Len(); i++ {
+					if rs.At(i).Name() == name && name != "" {
+						c.fe.eng.noteParamUse(c.fr.name, name, -1, i+1)
+					}
+				}
+			}
+		}
 		return v
 	}
 	switch name {
@@ -227,6 +241,13 @@ func (c *EvalCtx) evalIdent(name string) Val {
 			return c.objVal(obj)
 		}
 	}
+	// a local or parameter that was renamed since the expectation lists were written: same type, same position
+	if c.fr != nil {
+		if v, now, ok := c.byHint(name); ok {
+			c.fe.warns = append(c.fe.warns, fmt.Sprintf("%s: the contract names %q, which the code now calls %q (resolved by type and position; update the contract)", c.fr.name, name, now))
+			return v
+		}
+	}
 	return c.fail("unknown name %q", name)
 }
 
@@ -253,6 +274,15 @@ func (c *EvalCtx) localByName(name string) (Val, bool) {
 		}
 	}
 	if found != nil {
+		c.fe.eng.noteLocalUse(c.fr.name, name, fn, found)
+		return c.localValue(found)
+	}
+	return c.localTail(fn, base)
+}
+
+// localValue: the current value of the local variable declared by alloc a.
+func (c *EvalCtx) localValue(found *ssa.Alloc) (Val, bool) {
+	{
 		pv, ok := c.fe.regs[found]
 		if !ok {
 			// not yet executed on any path: zero
@@ -270,6 +300,9 @@ func (c *EvalCtx) localByName(name string) (Val, bool) {
 		}
 		return c.fe.load(c.st, p), true // struct local in the heap model: its value
 	}
+}
+
+func (c *EvalCtx) localTail(fn *ssa.Function, base string) (Val, bool) {
 	// captured variables of a closure
 	for _, fv := range fn.FreeVars {
 		if fv.Name() == base {
@@ -972,4 +1005,118 @@ func (fe *FnExec) assignLvalue(ctx *EvalCtx, st *State, x *CExpr, nv Val) {
 		}
 	}
 	fe.errorf("unsupported lvalue %q", x.Src)
+}
+
+// ---------------------------------------------------------------------------
+// Renamed locals.  Contracts name locals and parameters by their source names.  When the expectation lists are
+// written, every such name is recorded with a position-based descriptor (parameter index, or type plus ordinal among the
+// locals of that type in block order) in /verif/checks/locals.json; a name the current code no longer has is resolved
+// through its descriptor, so that a pure rename is not reported as "contract no longer applies".
+
+type localHint struct {
+	Type  string `json:"type,omitempty"`
+	Ord   int    `json:"ord,omitempty"`
+	Param int    `json:"param"` // index into the function's parameters, -1 for a local
+	Res   int    `json:"res,omitempty"` // 1 + index of a named result
+}
+
+func allocTypeOrd(fn *ssa.Function, a *ssa.Alloc) (string, int) {
+	ts := a.Type().(*types.Pointer).Elem().String()
+	n := 0
+	for _, b := range fn.Blocks {
+		for _, in := range b.Instrs {
+			if x, ok := in.(*ssa.Alloc); ok && x.Comment != "" && x.Type().(*types.Pointer).Elem().String() == ts {
+				n++
+				if x == a {
+					return ts, n
+				}
+			}
+		}
+	}
+	return ts, 0
+}
+
+func (e *Engine) noteLocalUse(fnName, name string, fn *ssa.Function, a *ssa.Alloc) {
+	e.localMu.Lock()
+	defer e.localMu.Unlock()
+	if e.localsUsed == nil {
+		e.localsUsed = map[string]map[string]localHint{}
+	}
+	if e.localsUsed[fnName] == nil {
+		e.localsUsed[fnName] = map[string]localHint{}
+	}
+	if _, ok := e.localsUsed[fnName][name]; ok {
+		return
+	}
+	h := localHint{Param: -1}
+	for i, p := range fn.Params {
+		if p.Name() == a.Comment {
+			h.Param = i // naive form keeps parameters in cells named after them
+		}
+	}
+	h.Type, h.Ord = allocTypeOrd(fn, a)
+	e.localsUsed[fnName][name] = h
+}
+
+func (c *EvalCtx) byHint(name string) (Val, string, bool) {
+	hs := c.fe.eng.localHints[c.fr.name]
+	h, ok := hs[name]
+	if !ok {
+		return nil, "", false
+	}
+	fn := c.fr.fn
+	if h.Res > 0 {
+		if v, ok := c.binds[fmt.Sprintf("result%d", h.Res-1)]; ok {
+			return v, fmt.Sprintf("result%d", h.Res-1), true
+		}
+		return nil, "", false
+	}
+	if h.Param >= 0 && h.Param < len(fn.Params) {
+		p := fn.Params[h.Param]
+		if v, ok := c.binds[p.Name()]; ok && p.Name() != name {
+			return v, p.Name(), true
+		}
+	}
+	n := 0
+	for _, b := range fn.Blocks {
+		for _, in := range b.Instrs {
+			if x, ok := in.(*ssa.Alloc); ok && x.Comment != "" && x.Type().(*types.Pointer).Elem().String() == h.Type {
+				n++
+				if n == h.Ord {
+					base := name
+					if i := strings.Index(name, "__"); i > 0 {
+						base = name[:i]
+					}
+					if x.Comment == base {
+						return nil, "", false
+					}
+					// the name must really be gone from the function
+					for _, b2 := range fn.Blocks {
+						for _, in2 := range b2.Instrs {
+							if y, ok := in2.(*ssa.Alloc); ok && y.Comment == base {
+								return nil, "", false
+							}
+						}
+					}
+					v, ok := c.localValue(x)
+					return v, x.Comment, ok
+				}
+			}
+		}
+	}
+	return nil, "", false
+}
+
+func (e *Engine) noteParamUse(fnName, name string, i, res int) {
+	e.localMu.Lock()
+	defer e.localMu.Unlock()
+	if e.localsUsed == nil {
+		e.localsUsed = map[string]map[string]localHint{}
+	}
+	if e.localsUsed[fnName] == nil {
+		e.localsUsed[fnName] = map[string]localHint{}
+	}
+	if _, ok := e.localsUsed[fnName][name]; !ok {
+		e.localsUsed[fnName][name] = localHint{Param: i, Res: res}
+	}
 }
